@@ -146,6 +146,9 @@ def concretise(abstract, rnd):
         if o == "upsert":
             ops.append({"op": "upsert_known", "b": b, "k": a.get("n", 3)})
             continue
+        if o == "reopen":
+            ops.append({"op": "reopen", "b": b})
+            continue
         if o == "learn":
             ops.append({"op": "learn", "b": b})
         elif o == "read":
@@ -189,7 +192,15 @@ def concretise(abstract, rnd):
 def random_abstract(rnd):
     """second source of abstract behaviours (same vocabulary as AwDurable's Emit)"""
     out = []
-    mode = rnd.choice(["mixed", "trickle", "slowtrickle", "deletes", "bursts", "upserts", "idlebulk"])
+    mode = rnd.choice(["mixed", "trickle", "slowtrickle", "deletes", "bursts", "upserts", "idlebulk", "reopened"])
+    if mode == "reopened":
+        # a store that was written earlier is opened again by a new process and then fed a slow trickle, without any bucket
+        # operation or read in between: the age rule must work from the first write on
+        out = [{"op": "insert", "n": rnd.choice([1, 3])}, {"op": "read", "n": 0}, {"op": "reopen", "n": 0}]
+        for _ in range(rnd.randint(2, 6)):
+            out.append({"op": "tick", "n": rnd.choice([15, 30, 16, 3600])})
+            out.append({"op": "insert", "n": 1})
+        return out
     for _ in range(rnd.randint(5, 18)):
         r = rnd.random()
         if mode == "trickle":
@@ -460,6 +471,16 @@ class Runner:
                             ds[b]
                     except Exception:
                         pass
+                elif o == "reopen":
+                    # the process ends in good order and a new one opens the same file: everything is committed first (what a
+                    # shutdown does), then a new storage object is created on the existing database
+                    if self.kind == "sqlite":
+                        ds.storage_strategy.commit()
+                        ds.storage_strategy.conn.close()
+                    else:
+                        ds.storage_strategy.db.close()
+                    self.ds = ds = mkds(self.kind, self.path)
+                    conn_of(self.kind, ds).set_trace_callback(cb)
                 elif o == "get":
                     ds[b].get(-1)
                 elif o == "get1":
@@ -607,6 +628,10 @@ def record_history(kind, ops, root, rnd, nkills):
 def _worker(args):
     kind, seed, jobs, nkills = args
     rnd = random.Random(seed)
+    if seed % 2:
+        # half of the workers live east of UTC (local time and UTC differ by hours): elapsed time does not depend on the zone
+        os.environ["TZ"] = "Asia/Tokyo"
+        _time.tzset()
     root = common.scratch_dir("d%d_%s_%d" % (os.getpid(), kind, seed % 100000))
     out = []
     try:
